@@ -251,7 +251,7 @@ ENC3 = ['moPepGen.gtf.TranscriptAnnotationModel.get_cds_start_index',
         'moPepGen.gtf.TranscriptAnnotationModel.get_transcript_sequence (orf, selenocysteine)']
 
 
-def _check_orf(glen, strand, exons, cs, ce, frame, utr_split, sec_k, utr_records=True):
+def _check_orf(glen, strand, exons, cs, ce, frame, utr_split, sec_k, utr_records=True, ensembl_utr=False):
     """CDS = [cs, ce) in TRANSCRIPT-STRAND-INDEPENDENT genomic coordinates restricted to
     exons; 3'UTR = rest of the exons downstream (in transcript direction) of the CDS,
     optionally split into per-exon pieces; one Sec codon at CDS offset 3*sec_k."""
@@ -277,6 +277,21 @@ def _check_orf(glen, strand, exons, cs, ce, frame, utr_split, sec_k, utr_records
     if tx_index_oracle(exons, strand, cs) is None or tx_index_oracle(exons, strand, ce - 1) is None:
         return SKIP               # CDS ends must be exonic
     three = down if strand == 1 else up
+    if ensembl_utr:
+        # ENSEMBL GTFs list the stop codon separately: the three_prime_utr record starts 3 nt after the CDS end
+        if not three:
+            return SKIP
+        if strand == 1:
+            s0, e0 = three[0]
+            if e0 - s0 < 4:
+                return SKIP
+            three = [(s0 + 3, e0)] + three[1:]
+        else:
+            s0, e0 = three[-1]
+            if e0 - s0 < 4:
+                return SKIP
+            three = three[:-1] + [(s0, e0 - 3)]
+    geometric_rest = bool(down if strand == 1 else up)
     if not utr_split and len(three) > 1:
         return SKIP               # covered by the split variant
     # frames: only the 5'-most CDS piece carries the symbolic frame
@@ -315,8 +330,8 @@ def _check_orf(glen, strand, exons, cs, ce, frame, utr_split, sec_k, utr_records
         return -2
     if orf.end > n or orf.end < orf.start:
         return -3
-    if three:
-        # with an annotated 3'UTR the ORF ends at the last complete codon of the CDS
+    if geometric_rest:
+        # whenever the transcript continues after the CDS the ORF ends at the last complete codon of the CDS
         cds_end_t = last + 1
         if orf.end != cds_end_t - (cds_end_t - orf.start) % 3:
             return -4              # ORF end disagrees with the CDS end
@@ -385,6 +400,19 @@ def c11_orf_3exons_minus(glen: int, a0: int, b0: int, a1: int, b1: int, a2: int,
     post: _ >= 0
     """
     return _check_orf(glen, -1, [(a0, b0), (a1, b1), (a2, b2)], cs, ce, frame, True, -1)
+
+
+@cond('C11', bounds="ORF, 2 exons, both strands, ENSEMBL-style annotation (the three_prime_utr record starts after the stop codon, 3 nt "
+      "past the CDS end); CDS = any exonic interval with >= 1 complete codon, frame 0..2, UNBOUNDED coordinates",
+      encodes=ENC3, codes=CODES3, timeout=500)
+def c11_orf_2exons_ensembl_utr(glen: int, plus: bool, a0: int, b0: int, a1: int, b1: int, cs: int, ce: int,
+                               frame: int) -> int:
+    """
+    pre: 0 <= glen
+    pre: 0 <= frame <= 2
+    post: _ >= 0
+    """
+    return _check_orf(glen, 1 if plus else -1, [(a0, b0), (a1, b1)], cs, ce, frame, True, -1, ensembl_utr=True)
 
 
 @cond('C11', bounds="ORF, 2 exons, both strands, annotation WITHOUT UTR records (exon and CDS rows only) although the transcript "
